@@ -35,7 +35,39 @@ type obs struct {
 	Raw     string       `json:"raw,omitempty"`
 }
 
-func nameOf(i int) string { return fmt.Sprintf("component-%d", i) }
+// nameTab is the name table of the case being run: component number -> the name it is registered under.
+// The model works on the numbers; the names are an input of their own (names.go).  Numbers beyond the table
+// (and every number of a replay stored without a table) get the plain "component-<n>".
+var nameTab []string
+
+func nameOf(i int) string {
+	if i >= 0 && i < len(nameTab) {
+		return nameTab[i]
+	}
+	return fmt.Sprintf("component-%d", i)
+}
+
+// shadowed: the component numbers of the current table whose NAME is the key under which the implementation
+// reports its verdict.  The answer's body cannot list such a component (one JSON object, one entry per key);
+// status code, verdict and IsReady are to be right all the same.
+func shadowed() map[int]bool {
+	m := map[int]bool{}
+	for i, n := range nameTab {
+		if n == health.OverallReady {
+			m[i] = true
+		}
+	}
+	return m
+}
+
+func coqShadow() string {
+	for i := range nameTab {
+		if nameTab[i] == health.OverallReady {
+			return fmt.Sprintf("Some %d", i)
+		}
+	}
+	return "None"
+}
 
 func apply(h *health.Health, o op) {
 	if o.Ready {
@@ -52,9 +84,9 @@ func observe(h *health.Health, withIsReady bool) (obs, error) {
 	h.ReadyzHandler().ServeHTTP(rec, req)
 	var body map[string]string
 	if err := json.Unmarshal(rec.Body.Bytes(), &body); err != nil {
-		return obs{}, fmt.Errorf("body is not a JSON object of strings: %q", rec.Body.String())
+		return obs{}, fmt.Errorf("body is not a JSON object of strings: %q", clip(rec.Body.String()))
 	}
-	o := obs{Code: rec.Code, Comps: map[int]bool{}, Raw: strings.TrimSpace(rec.Body.String())}
+	o := obs{Code: rec.Code, Comps: map[int]bool{}, Raw: clip(strings.TrimSpace(rec.Body.String()))}
 	ov, ok := body[health.OverallReady]
 	if !ok {
 		return o, fmt.Errorf("no overall key in %q", o.Raw)
@@ -64,15 +96,22 @@ func observe(h *health.Health, withIsReady bool) (obs, error) {
 		o.Overall = true
 	case health.ComponentNotReady:
 	default:
-		return o, fmt.Errorf("overall has unknown value %q", ov)
+		return o, fmt.Errorf("overall has unknown value %q", clip(ov))
+	}
+	rev := map[string]int{}
+	for i, n := range nameTab {
+		rev[n] = i
 	}
 	for k, v := range body {
 		if k == health.OverallReady {
 			continue
 		}
-		var idx int
-		if _, err := fmt.Sscanf(k, "component-%d", &idx); err != nil {
-			return o, fmt.Errorf("unknown component name %q", k)
+		idx, known := rev[k]
+		if !known {
+			var rest string
+			if n, _ := fmt.Sscanf(k, "component-%d%s", &idx, &rest); n != 1 || k != fmt.Sprintf("component-%d", idx) || idx < len(nameTab) {
+				return o, fmt.Errorf("unknown component name %q", clip(k))
+			}
 		}
 		switch v {
 		case health.ComponentReady:
@@ -80,7 +119,7 @@ func observe(h *health.Health, withIsReady bool) (obs, error) {
 		case health.ComponentNotReady:
 			o.Comps[idx] = false
 		default:
-			return o, fmt.Errorf("component %q has unknown value %q", k, v)
+			return o, fmt.Errorf("component %q has unknown value %q", clip(k), clip(v))
 		}
 	}
 	if withIsReady {
@@ -111,8 +150,17 @@ func oracle(hist []op, o obs, checkIsReady bool) string {
 	if !allReady && !(o.Code == 503 && !o.Overall) {
 		return fmt.Sprintf("a registered component is not ready but answer is %d overall=%v", o.Code, o.Overall)
 	}
-	if len(o.Comps) != len(last) {
-		return fmt.Sprintf("body lists %d components, %d were touched", len(o.Comps), len(last))
+	// a component named like the verdict key has no entry of its own in the body (the verdict is there); the
+	// status code and the verdict checked above are what the property states, with that component counted
+	sh := shadowed()
+	nShadowed := 0
+	for n := range last {
+		if sh[n] {
+			nShadowed++
+		}
+	}
+	if len(o.Comps) != len(last)-nShadowed {
+		return fmt.Sprintf("body lists %d components, %d were touched (%d of them named like the verdict key)", len(o.Comps), len(last), nShadowed)
 	}
 	listedAll := true
 	for n, v := range o.Comps {
@@ -124,13 +172,28 @@ func oracle(hist []op, o obs, checkIsReady bool) string {
 			listedAll = false
 		}
 	}
-	if listedAll != o.Overall {
+	if nShadowed == 0 && listedAll != o.Overall {
 		return fmt.Sprintf("overall=%v but conjunction of listed components is %v", o.Overall, listedAll)
 	}
 	if checkIsReady && o.IsReady != o.Overall {
 		return fmt.Sprintf("IsReady=%v but overall=%v", o.IsReady, o.Overall)
 	}
 	return ""
+}
+
+// seqRequests: requests per state in the sequential stage; concRepeats: runs of one forced schedule.
+const (
+	seqRequests    = 4
+	concRepeats    = 3
+	replayRequests = 64
+)
+
+func clipAll(xs []string) []string {
+	res := make([]string, len(xs))
+	for i, x := range xs {
+		res[i] = clip(x)
+	}
+	return res
 }
 
 func coqOp(o op) string {
@@ -184,12 +247,14 @@ func main() {
 
 	seqCases := &hutil.CaseFile{Dir: *out, Stem: "cases_seq", PerFile: 1000,
 		Header: "From Coq Require Import List Arith Bool.\nImport ListNotations.\nFrom AM Require Import Model.Health.\n",
-		Footer: func(int) string { return "Definition M := Eval vm_compute in mismatches cases.\nPrint M.\n" }}
+		Footer: func(int) string { return "Definition M := Eval vm_compute in mismatches_sh cases.\nPrint M.\n" }}
 
 	for i := 0; i < *n; i++ {
 		names := 1 + r.Intn(5)
 		ln := r.Intn(15)
 		ops := genOps(r, ln, names)
+		var nkind string
+		nameTab, nkind = pickNames(r, names)
 		h := health.NewHealth()
 		items := []string{}
 		sawReady, sawNot := false, false
@@ -198,15 +263,23 @@ func main() {
 		for j, o := range ops {
 			apply(h, o)
 			touched[o.Name] = true
-			ob, err := observe(h, true)
-			if err == nil {
-				if msg := oracle(ops[:j+1], ob, true); msg != "" {
-					err = errors.New(msg)
+			// several requests per state: the order in which the implementation visits its map differs from
+			// request to request (Go randomises it); every answer must be the one the history determines
+			var ob obs
+			for q := 0; q < seqRequests; q++ {
+				obq, err := observe(h, true)
+				if q == 0 {
+					ob = obq
 				}
-			}
-			if err != nil && !failed {
-				failed = true
-				sum.Fail("oracle", err.Error(), map[string]any{"mode": "seq", "ops": ops[:j+1], "observed": ob})
+				if err == nil {
+					if msg := oracle(ops[:j+1], obq, true); msg != "" {
+						err = errors.New(msg)
+					}
+				}
+				if err != nil && !failed {
+					failed = true
+					sum.Fail("oracle", err.Error(), map[string]any{"mode": "seq", "ops": ops[:j+1], "names": namesForReplay(), "observed": obq})
+				}
 			}
 			if ob.Overall {
 				sawReady = true
@@ -216,12 +289,16 @@ func main() {
 			ob.Raw = ""
 			items = append(items, fmt.Sprintf("(%s, %s)", coqOp(o), coqObs(ob)))
 		}
-		seqCases.AddDesc(hutil.CoqList(items), map[string]any{"mode": "seq", "ops": ops})
-		key := fmt.Sprint(ops)
+		seqCases.AddDesc(fmt.Sprintf("(%s, %s)", coqShadow(), hutil.CoqList(items)), map[string]any{"mode": "seq", "ops": ops, "names": clipAll(nameTab)})
+		key := fmt.Sprint(ops, nameTab)
 		sum.Count(key, len(touched) >= 2 && sawReady && sawNot)
 		sum.Dist(fmt.Sprintf("seq_len_%02d", ln))
+		sum.Dist("seq_names_" + nkind)
+		if len(shadowed()) > 0 {
+			sum.Dist("seq_component_named_like_verdict_key")
+		}
 		if i < 2 {
-			sum.Sample(map[string]any{"mode": "seq", "ops": ops})
+			sum.Sample(map[string]any{"mode": "seq", "ops": ops, "names": clipAll(nameTab)})
 		}
 	}
 	seqCases.Flush()
@@ -229,117 +306,127 @@ func main() {
 	// ---- concurrent: pause the request at Len / Iterate, run stores in between ----
 	concCases := &hutil.CaseFile{Dir: *out, Stem: "cases_conc", PerFile: 1000,
 		Header: "From Coq Require Import List Arith Bool.\nImport ListNotations.\nFrom AM Require Import Model.Health.\n",
-		Footer: func(int) string { return "Definition M := Eval vm_compute in mismatches_conc cases.\nPrint M.\n" }}
+		Footer: func(int) string { return "Definition M := Eval vm_compute in mismatches_conc_sh cases.\nPrint M.\n" }}
 	ctl := hutil.NewCtl()
 	common.VerifHook = ctl.Hook
 	for i := 0; i < *nc; i++ {
 		names := 1 + r.Intn(4)
 		pre := genOps(r, r.Intn(6), names)
 		a := genOps(r, r.Intn(3), names)
-		_ = a
 		b := genOps(r, r.Intn(4), names)
 		c := genOps(r, r.Intn(3), names)
-		h := health.NewHealth()
-		for _, o := range pre {
-			apply(h, o)
-		}
-		var ob obs
-		var oerr error
+		var nkind string
+		nameTab, nkind = pickNames(r, names)
 		hist := append(append([]op{}, pre...), a...)
-		for _, o := range a {
-			apply(h, o)
-		}
-		// dry run: how many lock acquisitions does one request make on this state?
-		ctl.ResetTrace()
-		_, _ = observe(h, false)
-		nHooks := len(ctl.ResetTrace())
-		if nHooks == 0 {
-			nHooks = 1
-		}
-		// pause the request just before its k-th lock acquisition and run the stores b there
-		k := i % nHooks
-		lockTrace := []string{}
-		paused := ctl.StartVictim(func() { ob, oerr = observe(h, false) }, k)
-		if paused {
-			for _, o := range b {
+		// the same forced schedule several times: the map's iteration order is the implementation's own choice
+		for rep := 0; rep < concRepeats; rep++ {
+			h := health.NewHealth()
+			for _, o := range hist {
 				apply(h, o)
 			}
-			ctl.Resume()
-			ctl.WaitVictim()
-		} else {
-			b = nil
-		}
-		for _, e := range ctl.ResetTrace() {
-			lockTrace = append(lockTrace, e.Op)
-		}
-		for _, o := range c {
-			apply(h, o)
-		}
-		// Per the property the answer must be a consistent snapshot: it must equal the
-		// status of the map at SOME point between the start and the end of the request.
-		okAt := -1
-		var lastMsg string
-		for cut := 0; cut <= len(b); cut++ {
-			hh := append(append([]op{}, hist...), b[:cut]...)
-			if oerr != nil {
-				break
+			var ob obs
+			var oerr error
+			// dry run: how many lock acquisitions does one request make on this state?
+			ctl.ResetTrace()
+			_, _ = observe(h, false)
+			nHooks := len(ctl.ResetTrace())
+			if nHooks == 0 {
+				nHooks = 1
 			}
-			if msg := oracle(hh, ob, false); msg == "" {
-				okAt = cut
+			// pause the request just before its k-th lock acquisition and run the stores b there
+			k := i % nHooks
+			lockTrace := []string{}
+			paused := ctl.StartVictim(func() { ob, oerr = observe(h, false) }, k)
+			bb := b
+			if paused {
+				for _, o := range bb {
+					apply(h, o)
+				}
+				ctl.Resume()
+				ctl.WaitVictim()
 			} else {
-				lastMsg = msg
+				bb = nil
 			}
-		}
-		if okAt < 0 {
-			if oerr != nil {
-				lastMsg = oerr.Error()
+			for _, e := range ctl.ResetTrace() {
+				lockTrace = append(lockTrace, e.Op)
 			}
-			sum.Fail("oracle", "answer is not a consistent snapshot: "+lastMsg,
-				map[string]any{"mode": "conc", "pre": hist, "stores_while_paused": b, "paused_before_lock_index": k, "observed": ob, "lock_trace": lockTrace})
-		}
-		// model case: events and answer
-		evs := []string{}
-		for _, o := range hist {
-			evs = append(evs, "EvOp ("+coqOp(o)+")")
-		}
-		// lock trace of the request as observed: Len ... Iterate, with b's stores in between
-		if k == 0 {
-			for _, o := range b {
+			for _, o := range c {
+				apply(h, o)
+			}
+			// Per the property the answer must be a consistent snapshot: it must equal the
+			// status of the map at SOME point between the start and the end of the request.
+			okAt := -1
+			var lastMsg string
+			for cut := 0; cut <= len(bb); cut++ {
+				hh := append(append([]op{}, hist...), bb[:cut]...)
+				if oerr != nil {
+					break
+				}
+				if msg := oracle(hh, ob, false); msg == "" {
+					okAt = cut
+				} else {
+					lastMsg = msg
+				}
+			}
+			if okAt < 0 {
+				if oerr != nil {
+					lastMsg = oerr.Error()
+				}
+				sum.Fail("oracle", "answer is not a consistent snapshot: "+lastMsg,
+					map[string]any{"mode": "conc", "pre": hist, "stores_while_paused": bb, "paused_before_lock_index": k, "names": namesForReplay(), "observed": ob, "lock_trace": lockTrace})
+			}
+			if rep > 0 {
+				if okAt < 0 {
+					break
+				}
+				continue
+			}
+			// model case: events and answer
+			evs := []string{}
+			for _, o := range hist {
 				evs = append(evs, "EvOp ("+coqOp(o)+")")
 			}
-		}
-		evs = append(evs, "EvLen")
-		if k == 1 {
-			for _, o := range b {
+			// lock trace of the request as observed: Len ... Iterate, with b's stores in between
+			if k == 0 {
+				for _, o := range bb {
+					evs = append(evs, "EvOp ("+coqOp(o)+")")
+				}
+			}
+			evs = append(evs, "EvLen")
+			if k == 1 {
+				for _, o := range bb {
+					evs = append(evs, "EvOp ("+coqOp(o)+")")
+				}
+			}
+			evs = append(evs, "EvIter")
+			if k >= 2 {
+				for _, o := range bb {
+					evs = append(evs, "EvOp ("+coqOp(o)+")")
+				}
+			}
+			for _, o := range c {
 				evs = append(evs, "EvOp ("+coqOp(o)+")")
 			}
-		}
-		evs = append(evs, "EvIter")
-		if k >= 2 {
-			for _, o := range b {
-				evs = append(evs, "EvOp ("+coqOp(o)+")")
+			ob.Raw = ""
+			concCases.AddDesc(fmt.Sprintf("(%s, (%s, %s))", coqShadow(), hutil.CoqList(evs), coqObs(ob)),
+				map[string]any{"mode": "conc", "pre": hist, "between_len_and_iterate": bb, "post": c, "names": clipAll(nameTab)})
+			// the decomposition [Len; Iterate] itself is part of the correspondence
+			reqLocks := []string{}
+			for _, l := range lockTrace {
+				if l == "Len" || l == "Iterate" {
+					reqLocks = append(reqLocks, l)
+				}
 			}
-		}
-		for _, o := range c {
-			evs = append(evs, "EvOp ("+coqOp(o)+")")
-		}
-		ob.Raw = ""
-		concCases.AddDesc(fmt.Sprintf("(%s, %s)", hutil.CoqList(evs), coqObs(ob)), map[string]any{"mode": "conc", "pre": hist, "between_len_and_iterate": b, "post": c})
-		// the decomposition [Len; Iterate] itself is part of the correspondence
-		reqLocks := []string{}
-		for _, l := range lockTrace {
-			if l == "Len" || l == "Iterate" {
-				reqLocks = append(reqLocks, l)
+			if strings.Join(reqLocks, ",") != "Len,Iterate" {
+				sum.Fail("harness", "status request no longer acquires the map as [Len; Iterate]: "+strings.Join(lockTrace, ","),
+					map[string]any{"mode": "conc", "lock_trace": lockTrace})
 			}
-		}
-		if strings.Join(reqLocks, ",") != "Len,Iterate" {
-			sum.Fail("harness", "status request no longer acquires the map as [Len; Iterate]: "+strings.Join(lockTrace, ","),
-				map[string]any{"mode": "conc", "lock_trace": lockTrace})
-		}
-		sum.Count("conc:"+fmt.Sprint(hist, b, c), len(b) > 0)
-		sum.Dist(fmt.Sprintf("conc_mid_%d", len(b)))
-		if i < 2 {
-			sum.Sample(map[string]any{"mode": "conc", "pre": hist, "between_len_and_iterate": b, "post": c})
+			sum.Count("conc:"+fmt.Sprint(hist, bb, c, nameTab), len(bb) > 0)
+			sum.Dist(fmt.Sprintf("conc_mid_%d", len(bb)))
+			sum.Dist("conc_names_" + nkind)
+			if i < 2 {
+				sum.Sample(map[string]any{"mode": "conc", "pre": hist, "between_len_and_iterate": bb, "post": c, "names": clipAll(nameTab)})
+			}
 		}
 	}
 	concCases.Flush()
@@ -352,6 +439,7 @@ func main() {
 		names := 1 + r.Intn(4)
 		pre := genOps(r, r.Intn(7), names)
 		o := genOps(r, 1, names)[0]
+		nameTab, _ = pickNames(r, names)
 		h := health.NewHealth()
 		for _, x := range pre {
 			apply(h, x)
@@ -367,18 +455,21 @@ func main() {
 		}
 		ctl.ResetTrace()
 		hist := append(append([]op{}, pre...), o)
-		ob, oerr := observe(h, true)
-		msg := ""
-		if oerr != nil {
-			msg = oerr.Error()
-		} else {
-			msg = oracle(hist, ob, true)
+		for q := 0; q < seqRequests; q++ {
+			ob, oerr := observe(h, true)
+			msg := ""
+			if oerr != nil {
+				msg = oerr.Error()
+			} else {
+				msg = oracle(hist, ob, true)
+			}
+			if msg != "" {
+				sum.Fail("oracle", "after a readiness poll that ran while a store was in flight, the quiescent answers are not those of the history: "+msg,
+					map[string]any{"mode": "poll-during-store", "pre": pre, "store": o, "names": namesForReplay(), "polled_is_ready": polled, "observed": ob})
+				break
+			}
 		}
-		if msg != "" {
-			sum.Fail("oracle", "after a readiness poll that ran while a store was in flight, the quiescent answers are not those of the history: "+msg,
-				map[string]any{"mode": "poll-during-store", "pre": pre, "store": o, "polled_is_ready": polled, "observed": ob})
-		}
-		sum.Count("poll:"+fmt.Sprint(pre, o), paused)
+		sum.Count("poll:"+fmt.Sprint(pre, o, nameTab), paused)
 		sum.Dist("poll_during_store")
 	}
 	// ---- two writers overlapping (see writers.go) ----
@@ -456,35 +547,40 @@ func doReplay(path string) int {
 	}
 	var rp struct {
 		Replay struct {
-			Mode string `json:"mode"`
-			Ops  []op   `json:"ops"`
-			Pre  []op   `json:"pre"`
-			Mid  []op   `json:"stores_while_paused"`
-			K    int    `json:"paused_before_lock_index"`
-			St   *op    `json:"store"`
-			Vic  *op    `json:"victim"`
-			Oth  []op   `json:"run_while_paused"`
-			Dw   bool   `json:"dwell"`
+			Mode string   `json:"mode"`
+			Ops  []op     `json:"ops"`
+			Pre  []op     `json:"pre"`
+			Mid  []op     `json:"stores_while_paused"`
+			K    int      `json:"paused_before_lock_index"`
+			St   *op      `json:"store"`
+			Vic  *op      `json:"victim"`
+			Oth  []op     `json:"run_while_paused"`
+			Dw   bool     `json:"dwell"`
+			Nm   []string `json:"names"`
 		} `json:"replay"`
 	}
 	if err := json.Unmarshal(raw, &rp); err != nil {
 		fmt.Println("bad replay:", err)
 		return 2
 	}
+	nameTab = rp.Replay.Nm // absent in older replays: plain names
 	switch rp.Replay.Mode {
 	case "seq":
 		h := health.NewHealth()
 		for j, o := range rp.Replay.Ops {
 			apply(h, o)
-			ob, err := observe(h, true)
-			if err == nil {
-				if msg := oracle(rp.Replay.Ops[:j+1], ob, true); msg != "" {
-					err = errors.New(msg)
+			// the answer may depend on the order in which the implementation visits its map: many requests
+			for q := 0; q < replayRequests; q++ {
+				ob, err := observe(h, true)
+				if err == nil {
+					if msg := oracle(rp.Replay.Ops[:j+1], ob, true); msg != "" {
+						err = errors.New(msg)
+					}
 				}
-			}
-			if err != nil {
-				fmt.Printf("REPRODUCED after op %d: %v (answer %s)\n", j, err, ob.Raw)
-				return 1
+				if err != nil {
+					fmt.Printf("REPRODUCED after op %d (request %d): %v (answer %s)\n", j, q, err, ob.Raw)
+					return 1
+				}
 			}
 		}
 		fmt.Println("not reproduced")
@@ -492,33 +588,40 @@ func doReplay(path string) int {
 	case "conc":
 		ctl := hutil.NewCtl()
 		common.VerifHook = ctl.Hook
-		h := health.NewHealth()
-		for _, o := range rp.Replay.Pre {
-			apply(h, o)
-		}
-		var ob obs
-		var oerr error
-		if ctl.StartVictim(func() { ob, oerr = observe(h, false) }, rp.Replay.K) {
-			for _, o := range rp.Replay.Mid {
+		for q := 0; q < replayRequests; q++ {
+			h := health.NewHealth()
+			for _, o := range rp.Replay.Pre {
 				apply(h, o)
 			}
-			ctl.Resume()
-			ctl.WaitVictim()
-		}
-		if oerr != nil {
-			fmt.Println("REPRODUCED:", oerr)
-			return 1
-		}
-		msg := ""
-		for cut := 0; cut <= len(rp.Replay.Mid); cut++ {
-			hh := append(append([]op{}, rp.Replay.Pre...), rp.Replay.Mid[:cut]...)
-			if msg = oracle(hh, ob, false); msg == "" {
-				fmt.Println("not reproduced")
-				return 0
+			var ob obs
+			var oerr error
+			if ctl.StartVictim(func() { ob, oerr = observe(h, false) }, rp.Replay.K) {
+				for _, o := range rp.Replay.Mid {
+					apply(h, o)
+				}
+				ctl.Resume()
+				ctl.WaitVictim()
+			}
+			if oerr != nil {
+				fmt.Println("REPRODUCED:", oerr)
+				return 1
+			}
+			msg := ""
+			ok := false
+			for cut := 0; cut <= len(rp.Replay.Mid); cut++ {
+				hh := append(append([]op{}, rp.Replay.Pre...), rp.Replay.Mid[:cut]...)
+				if msg = oracle(hh, ob, false); msg == "" {
+					ok = true
+					break
+				}
+			}
+			if !ok {
+				fmt.Printf("REPRODUCED (run %d): answer %s is not a consistent snapshot: %s\n", q, ob.Raw, msg)
+				return 1
 			}
 		}
-		fmt.Printf("REPRODUCED: answer %s is not a consistent snapshot: %s\n", ob.Raw, msg)
-		return 1
+		fmt.Println("not reproduced")
+		return 0
 	case "poll-during-store":
 		if rp.Replay.St == nil {
 			fmt.Println("replay carries no store")
@@ -537,15 +640,17 @@ func doReplay(path string) int {
 			ctl.WaitVictim()
 		}
 		common.VerifHook = nil
-		ob, err := observe(h, true)
-		if err == nil {
-			if msg := oracle(append(append([]op{}, rp.Replay.Pre...), *rp.Replay.St), ob, true); msg != "" {
-				err = errors.New(msg)
+		for q := 0; q < replayRequests; q++ {
+			ob, err := observe(h, true)
+			if err == nil {
+				if msg := oracle(append(append([]op{}, rp.Replay.Pre...), *rp.Replay.St), ob, true); msg != "" {
+					err = errors.New(msg)
+				}
 			}
-		}
-		if err != nil {
-			fmt.Printf("REPRODUCED poll-during-store: %v (answer %s)\n", err, ob.Raw)
-			return 1
+			if err != nil {
+				fmt.Printf("REPRODUCED poll-during-store: %v (answer %s)\n", err, ob.Raw)
+				return 1
+			}
 		}
 		fmt.Println("not reproduced")
 		return 0
@@ -554,7 +659,7 @@ func doReplay(path string) int {
 			fmt.Println("replay carries no victim call")
 			return 2
 		}
-		return replayWriters(wwCase{Mode: "writers", Pre: rp.Replay.Pre, Victim: *rp.Replay.Vic, K: rp.Replay.K, Others: rp.Replay.Oth, Dwell: rp.Replay.Dw})
+		return replayWriters(wwCase{Mode: "writers", Pre: rp.Replay.Pre, Victim: *rp.Replay.Vic, K: rp.Replay.K, Others: rp.Replay.Oth, Dwell: rp.Replay.Dw, Names: rp.Replay.Nm})
 	default:
 		fmt.Println("unknown replay mode", rp.Replay.Mode)
 		return 2
